@@ -537,4 +537,64 @@ example : toy.OK ∧ Refines toy (goSetBytes2 1 toy.rhs toyPrims) ∧ toy.Good t
 
 end toy
 
+/-! ## 6. the hypotheses at the REAL parameters (curve table of the model, regenerated `fp.Bytes`) -/
+
+/-- primitives read off a codec: a WITNESS that `Rel` is satisfiable for a codec of any size (`Square` := the whole right-hand side, `Mul` / `Add`
+:= left projection, so that each of the three texts `x³ + b`, `x³ + x + b`, `x³ + b'` evaluates to `C.rhs x`) -/
+def primsOf (C : Codec α) : Prims α where
+  zero := C.zero
+  isZero := fun x => decide (x = C.zero)
+  setBytesCanonical := fun bs => if beToNat bs < C.p then some (C.ofComps [beToNat bs]) else none
+  putElement := fun x => putBE C.fb ((C.toComps x).headD 0)
+  square := C.rhs
+  mul := fun a _ => a
+  add := fun a _ => a
+  neg := C.neg
+  sqrt := C.sqrt
+  lex := C.lex
+  bCurveCoeff := C.zero
+  bTwistCurveCoeff := C.zero
+  isInSubGroup := C.goInSub
+
+theorem relOf (C : Codec α) (g : α → α) (hg : ∀ x, g x = C.rhs x) (hc : C.c = 1) (hfb : 1 ≤ C.fb) : Rel (primsOf C) C g where
+  c1 := hc
+  fb_pos := hfb
+  zero := rfl
+  isZero := fun _ => rfl
+  sbc := fun _ _ => rfl
+  put := fun x hx => by
+    obtain ⟨v, hv⟩ := List.length_eq_one_iff.mp (show (C.toComps x).length = 1 from hc ▸ hx.len)
+    exact ⟨v, hv, by simp [primsOf, hv]⟩
+  rhs := hg
+  sqrt := fun _ => rfl
+  lex := fun _ => rfl
+  neg := fun _ => rfl
+  sub := fun _ _ => rfl
+
+/-- name, layout and `fp.Bytes` (regenerated, Gen/Fields.lean) of the ten packages: the `hL` / `hfb` hypotheses of sections 1–1d -/
+theorem C07codec_table_sizes : curves.map (fun d => (d.name, d.L, d.fpC.bytes)) =
+    [("bn254", .two, 32), ("bls12-377", .three, 48), ("bls12-381", .three, 48), ("bls24-315", .three, 40), ("bls24-317", .three, 40),
+     ("bw6-633", .three, 80), ("bw6-761", .three, 96), ("grumpkin", .two, 32), ("stark-curve", .two, 32), ("secp256k1", .raw, 32)] := by
+  decide +kernel
+
+/-- for every curve of the table the G1 codec the driver runs (and the model's theorems are instantiated with) satisfies `Codec.OK` (base
+modulus prime: C07_G1_OK) and `Rel` holds for `primsOf` with each of the three right-hand-side texts; its layout and element size are those of
+`C07codec_table_sizes` — so the hypotheses of every `C07codec_*_<curve>` theorem are satisfiable at that package's own parameters -/
+theorem C07codec_hyps_table (d : CurveDesc) (hd : d ∈ curves) [Fact d.fpP.q.Prime] :
+    d.codec1.OK ∧ Rel (primsOf d.codec1) d.codec1 (goRhs (primsOf d.codec1)) ∧
+    Rel (primsOf d.codec1) d.codec1 (goRhsA1 (primsOf d.codec1)) ∧ Rel (primsOf d.codec1) d.codec1 (goRhsTwist (primsOf d.codec1)) ∧
+    d.codec1.L = d.L ∧ d.codec1.fb = d.fpC.bytes := by
+  have hb : ∀ d ∈ curves, 1 ≤ d.fpC.bytes := by decide +kernel
+  exact ⟨C07_G1_OK d hd, relOf _ _ (fun _ => rfl) rfl (hb d hd), relOf _ _ (fun _ => rfl) rfl (hb d hd),
+    relOf _ _ (fun _ => rfl) rfl (hb d hd), rfl, rfl⟩
+
+/-- e.g. bn254: everything the per-package theorems need, for the codec of the table (the base modulus prime) -/
+example (d : CurveDesc) (hd : d ∈ curves) (hn : d.L = .two) (hb : d.fpC.bytes = 32) [Fact d.fpP.q.Prime] :
+    Refines d.codec1 (GV.Gen.PointCodec.bn254.G1_setBytes (primsOf d.codec1)) ∧
+    EncodesC d.codec1 (GV.Gen.PointCodec.bn254.G1_Bytes (primsOf d.codec1)) ∧
+    EncodesR d.codec1 (GV.Gen.PointCodec.bn254.G1_RawBytes (primsOf d.codec1)) := by
+  obtain ⟨hok, r1, _, _, hL, hfb⟩ := C07codec_hyps_table d hd
+  exact ⟨C07codec_setBytes_bn254 _ _ r1 (hL.trans hn) (hfb.trans hb), C07codec_Bytes_bn254 _ _ _ r1 hok (hL.trans hn) (hfb.trans hb),
+    C07codec_RawBytes_bn254 _ _ _ r1 (hL.trans hn) (hfb.trans hb)⟩
+
 end GV.PointCodec
